@@ -80,6 +80,50 @@ def des(run, part, parts):
         cmp(rng.getrandbits(64), rng.getrandbits(64), 0, 1, "random")
 
 
+def blowfish_engines(run):
+    """the loop-based reference engine and the unrolled engine the bcrypt core uses are the same function:
+    same key schedule (P and S arrays) and same cipher output after every primitive, on generated keys / salts,
+    and both reproduce published Blowfish ECB vectors"""
+    from passlib.crypto._blowfish.base import BlowfishEngine as Base
+    from passlib.crypto._blowfish.unrolled import BlowfishEngine as Unrolled
+    rng = run.rng("bf-engines")
+    # Schneier's published ECB vectors: (key, plaintext, ciphertext)
+    vectors = [("0000000000000000", "0000000000000000", "4EF997456198DD78"), ("FFFFFFFFFFFFFFFF", "FFFFFFFFFFFFFFFF", "51866FD5B85ECB8A"),
+               ("3000000000000000", "1000000000000001", "7D856F9A613063F2"), ("0123456789ABCDEF", "1111111111111111", "61F9C3802281B096"),
+               ("FEDCBA9876543210", "0123456789ABCDEF", "0ACEAB0FC6A0A28D")]
+    for cls in (Base, Unrolled):
+        for key, pt, ct in vectors:
+            e = cls()
+            e.expand(cls.key_to_words(bytes.fromhex(key)))
+            l, r = int(pt[:8], 16), int(pt[8:], 16)
+            out = e.encipher(l, r)
+            run.count("blowfish_ecb_vectors")
+            if "%08X%08X" % tuple(out) != ct:
+                run.violation(f"C11|blowfish-engine|{cls.__module__.split('.')[-1]}|ecb-vector", f"{cls.__module__}.BlowfishEngine: key {key} plaintext {pt} -> {'%08X%08X' % tuple(out)}, published {ct}", dict(key=key))
+    for i in range(12 if run.tier == "quick" else 120):
+        key = H.pw_bytes(rng, rng.choice([1, 4, 8, 17, 56, 72]), "binary")
+        salt = H.pw_bytes(rng, 16, "binary")
+        a, b = Base(), Unrolled()
+        kw_a, kw_b = Base.key_to_words(key), Unrolled.key_to_words(key)
+        sw = Base.key_to_words(salt, 4)
+        ops = [("expand", lambda e, kw: e.expand(kw)), ("eks_salted_expand", lambda e, kw: e.eks_salted_expand(kw, sw)), ("expand-again", lambda e, kw: e.expand(kw))]
+        if i % 4 == 0:
+            sw18 = Base.key_to_words(salt)
+            ops.append(("eks_repeated_expand", lambda e, kw: e.eks_repeated_expand(kw, sw18, 3)))
+        for label, op in ops:
+            op(a, kw_a)
+            op(b, kw_b)
+            l, r = rng.getrandbits(32), rng.getrandbits(32)
+            same_state = list(a.P) == list(b.P) and [list(x) for x in a.S] == [list(x) for x in b.S]
+            same_out = tuple(a.encipher(l, r)) == tuple(b.encipher(l, r)) and tuple(a.repeat_encipher(l, r, 5)) == tuple(b.repeat_encipher(l, r, 5))
+            run.count("blowfish_engine_steps")
+            run.case(("blowfish-engines", label, len(key)), dict(primitive="BlowfishEngine base vs unrolled", step=label, key_len=len(key)))
+            if not (same_state and same_out):
+                run.violation(f"C11|blowfish-engine|base-vs-unrolled|{label}", f"after {label} with a {len(key)}-byte key the reference engine and the unrolled engine differ ({'key schedule' if not same_state else 'cipher output'})",
+                              dict(key=key, salt=salt, step=label))
+                break
+
+
 def blowfish(run, part, parts):
     from passlib.crypto._blowfish import raw_bcrypt
     rng = run.rng(f"bf{part}")
@@ -350,6 +394,9 @@ def body(run):
     run.parallel("checks.c11", "saslprep", [dict(part=i, parts=P) for i in range(P)], timeout=900 if run.tier == "quick" else 3600)
     md4(run)
     hmac_pbkdf(run)
+    blowfish_engines(run)
+    run.require("blowfish_engine_steps", 30)
+    run.require("blowfish_ecb_vectors", 10)
     run.require("des", 4096)
     run.require("bcrypt_core", 30)
     run.require("md4", 300)
